@@ -40,6 +40,8 @@ class CallbackListBase<
 >
 {
 private:
+	EVENTPP_VERIF_FRIEND
+
 	using Policies = PoliciesType;
 
 	using Threading = typename SelectThreading<Policies, HasTypeThreading<Policies>::value>::Type;
@@ -161,6 +163,7 @@ public:
 		// And empty() doesn't guarantee the list is still empty after the function returned.
 		//std::lock_guard<Mutex> lockGuard(mutex);
 
+		EVENTPP_VERIF_RACY_READ_SCOPE();
 		return ! head;
 	}
 
@@ -173,6 +176,7 @@ public:
 		NodePtr node(doAllocateNode(callback));
 
 		std::lock_guard<Mutex> lockGuard(mutex);
+		EVENTPP_VERIF_POINT("cl.append.cs");
 
 		if(head) {
 			node->previous = tail;
@@ -192,6 +196,7 @@ public:
 		NodePtr node(doAllocateNode(callback));
 
 		std::lock_guard<Mutex> lockGuard(mutex);
+		EVENTPP_VERIF_POINT("cl.prepend.cs");
 
 		if(head) {
 			node->next = head;
@@ -212,10 +217,12 @@ public:
 		//assert(before.expired() || ownsHandle(before));
 
 		NodePtr beforeNode = before.lock();
+		EVENTPP_VERIF_POINT("cl.insert.locked-before");
 		if(beforeNode) {
 			NodePtr node(doAllocateNode(callback));
 
 			std::lock_guard<Mutex> lockGuard(mutex);
+			EVENTPP_VERIF_POINT("cl.insert.cs");
 
 			doInsert(node, beforeNode);
 
@@ -233,6 +240,7 @@ public:
 		// It looks like the lock can be put inside the `if` below,
 		// but that doesn't work in multi-threading and cause related unit tests fail.
 		std::lock_guard<Mutex> lockGuard(mutex);
+		EVENTPP_VERIF_POINT("cl.remove.cs");
 
 		auto node = handle.lock();
 		if(node) {
@@ -246,6 +254,7 @@ public:
 	bool ownsHandle(const Handle & handle) const
 	{
 		std::lock_guard<Mutex> lockGuard(mutex);
+		EVENTPP_VERIF_POINT("cl.owns.cs");
 
 		auto node = handle.lock();
 		if(node) {
@@ -329,20 +338,25 @@ private:
 
 		{
 			std::lock_guard<Mutex> lockGuard(mutex);
+			EVENTPP_VERIF_POINT("cl.foreach.head.cs");
 			node = head;
 		}
 
 		const Counter counter = currentCounter.load(std::memory_order_acquire);
 
 		while(node) {
+			EVENTPP_VERIF_RACY_READ_BEGIN();
 			if(node->counter != removedCounter && counter >= node->counter) {
+				EVENTPP_VERIF_RACY_READ_END();
 				if(! f(node)) {
 					return false;
 				}
 			}
+			EVENTPP_VERIF_RACY_READ_END();
 
 			{
 				std::lock_guard<Mutex> lockGuard(mutex);
+				EVENTPP_VERIF_POINT("cl.foreach.next.cs");
 				node = node->next;
 			}
 		}
